@@ -75,6 +75,9 @@ func srcText(fset *token.FileSet, n ast.Node) string {
 //	          expression that is handed to AddOrUpdate, the popped entry is marked visited before
 //	          its edges are relaxed, visited neighbours are skipped, and unusable segments are not
 //	          weighed (IsUseable guards Weight);
+//	#stop     a search loop is left early only on a condition about the entry just popped (its
+//	          point is the destination; its distance exceeds the destination's): only a popped
+//	          entry's distance is final;
 //	#siblings ExpandSearch and ExpandSearchTo relax edges with structurally identical code (the
 //	          arguments of AddOrUpdate apart).
 //
@@ -86,7 +89,7 @@ func init() {
 		Name:  "DIJKSTRA-SHAPE",
 		IR:    "ast",
 		Props: []string{"C30"},
-		Floor: 7,
+		Floor: 8,
 		Doc: "the shortest-path search keeps the structural invariants of Dijkstra's algorithm over its indexed heap: min-order on distance, index bookkeeping in Swap/Push/Pop, distance+predecessor+heap.Fix updated together, " +
 			"the relaxed candidate compared with the limit is the one stored, popped entries are settled and skipped, and the two search loops relax edges identically",
 		Run: runDijkstraShape,
@@ -325,6 +328,59 @@ func runDijkstraShape(c *Ctx) []Obligation {
 			if inner == nil {
 				out = append(out, Obligation{Key: key(mname) + "#relax", Pos: c.Position(loop.Pos()), Status: Undecided, Detail: "search loop without a recognisable relaxation loop"})
 				continue
+			}
+			// #stop: an early exit from the search loop is decided about the entry just popped
+			var popped types.Object
+			for _, st := range loop.Body.List {
+				if as, ok := st.(*ast.AssignStmt); ok && len(as.Lhs) == 1 && len(as.Rhs) == 1 && popped == nil {
+					isPop := false
+					ast.Inspect(as.Rhs[0], func(n ast.Node) bool {
+						if call, ok := n.(*ast.CallExpr); ok {
+							if fn := calleeFunc(info, call); fn != nil && fn.Pkg() != nil && fn.Pkg().Path() == "container/heap" && fn.Name() == "Pop" {
+								isPop = true
+							}
+						}
+						return true
+					})
+					if id, ok := as.Lhs[0].(*ast.Ident); ok && isPop {
+						popped = info.Defs[id]
+					}
+				}
+			}
+			for _, st := range loop.Body.List {
+				ifs, ok := st.(*ast.IfStmt)
+				if !ok || popped == nil || len(ifs.Body.List) != 1 {
+					continue
+				}
+				if br, ok := ifs.Body.List[0].(*ast.BranchStmt); !ok || br.Tok != token.BREAK {
+					if _, isRet := ifs.Body.List[0].(*ast.ReturnStmt); !isRet {
+						continue
+					}
+				}
+				var disjuncts func(e ast.Expr) []ast.Expr
+				disjuncts = func(e ast.Expr) []ast.Expr {
+					e = ast.Unparen(e)
+					if b, ok := e.(*ast.BinaryExpr); ok && b.Op == token.LOR {
+						return append(disjuncts(b.X), disjuncts(b.Y)...)
+					}
+					return []ast.Expr{e}
+				}
+				bad := ""
+				for _, d := range disjuncts(ifs.Cond) {
+					mentions := false
+					ast.Inspect(d, func(n ast.Node) bool {
+						if id, ok := n.(*ast.Ident); ok && info.Uses[id] == popped {
+							mentions = true
+						}
+						return true
+					})
+					if !mentions {
+						bad = srcText(c.Fset, d)
+					}
+				}
+				add(key(mname)+"#stop", ifs.Pos(), bad == "",
+					fmt.Sprintf("%s leaves the search loop early only on conditions about the entry just popped (%s)", mname, srcText(c.Fset, ifs.Cond)),
+					fmt.Sprintf("%s leaves the search loop when %s, a condition that does not involve the entry just popped: only the popped entry's distance is final, so a stop decided about anything else (a tentative distance of the destination, the limit) can return a distance that a later pop would have lowered", mname, bad))
 			}
 			// the distance limit is a float64 parameter of the search method; usability and weight are a
 			// bool-returning and a float64-returning method called on an interface-typed parameter
